@@ -221,7 +221,9 @@ func oracleC03(c *oracleCtx) {
 	}
 	n := c.n(3000, 200000)
 	for i := 0; i < n && !c.expired(); i++ {
+		treegen.BlankOperatorLiterals = i%5 == 4 // operator nodes assembled by hand: no token text
 		p := treegen.RandomProgram(c.r, 1+c.r.Intn(5), 1+c.r.Intn(4))
+		treegen.BlankOperatorLiterals = false
 		cfgs := c03Cfgs
 		if c.r.Intn(4) == 0 {
 			cfgs = []string{"c", semiCfgs[c.r.Intn(len(semiCfgs))]}
